@@ -117,9 +117,14 @@ fn one_history(run: &Run, case: u64) {
                 desc = format!("backup {}", o.label());
                 let r = w.backup(*o);
                 let ok = r.backup.as_ref().map(|b| b.ok()).unwrap_or(false);
+                let moved = r.desc.contains("[first version moved");
                 for (arch, workers) in &replicas {
                     let ic = Icept::with_jitter(arch, Mode::Jitter, rng.next_u64());
                     let out = cs::with_workers(*workers, || cs::backup(ic.transport(1), &w.src, *o, &[], None));
+                    if moved {
+                        // the world fast-forwarded its band numbering: do the same here
+                        std::fs::rename(arch.join(fmt06::band_dirname(0)), arch.join(fmt06::band_dirname(w.first_band))).expect("rename band");
+                    }
                     if out.ok() != ok {
                         run.violation("replica-outcome-differs", format!("{desc}: first {ok}, replica {}", out.describe()), json!({"case": case, "step": step, "history": descs}));
                         return;
